@@ -79,7 +79,7 @@ def run(tier, seed, replay=None):
     nrej = 0
     variants = ['avx2'] + (['avx512'] if vlib.have_avx512() else [])
     for variant in variants:
-        exe = build_driver('drv_par', variant, extra=['-Wl,--wrap=malloc', '-Wl,--wrap=free'], omp=False, extra_srcs=['ompshim.cpp'])
+        exe = build_driver('drv_par', variant, extra=['-Wl,--wrap=malloc', '-Wl,--wrap=free', '-Wl,--wrap=calloc', '-Wl,--wrap=realloc', '-Wl,--wrap=aligned_alloc', '-Wl,--wrap=posix_memalign', '-Wl,--wrap=memalign'], omp=False, extra_srcs=['ompshim.cpp'])
         use = [c for c in cases if variant == 'avx512' or not (c.startswith('mt 4') or c.startswith('mt 5'))]
         if variant == 'avx512':
             use = [c for c in use if c.startswith('mt')]      # the AVX512 builders; everything else is identical code
